@@ -4,5 +4,7 @@ HSAll == {"valid", "forged", "error", "garbage", "enc", "none"}
 HSSome == {"valid", "forged", "none"}
 DataAll == {"valid", "bad", "error", "garbage", "hsr", "none", "valid+unsolicited", "dup"}
 DataSome == {"valid", "bad", "none", "valid+unsolicited"}
+HSValid == {"valid"}
+DataValid == {"valid", "none"}
 V2All == {"valid", "bad", "none", "valid+unsolicited", "dup"}
 =======================================================================
